@@ -72,6 +72,15 @@ func (l *ListRules) token() string {
 	if l.isZero() {
 		return "~"
 	}
+	return l.wireToken()
+}
+
+// wireToken: "~" only when the list-rules message is absent; a present but all-zero message is
+// spelled out (the compiler writes the annotation whenever the message is present).
+func (l *ListRules) wireToken() string {
+	if l == nil {
+		return "~"
+	}
 	df := make([]string, len(l.DefaultFilters))
 	for i, d := range l.DefaultFilters {
 		df[i] = vh.Hex([]byte(d))
@@ -213,7 +222,7 @@ func (s *Spec) Encode() string {
 		"in=" + listS(s.In),
 		"nin=" + listS(s.NIn),
 		"flat=" + b01(s.Flat),
-		"lr=" + s.LR.token(),
+		"lr=" + s.LR.wireToken(),
 	}
 	return strings.Join(kv, " ")
 }
